@@ -111,6 +111,8 @@ def real_raw(dex, data: bytes, ntypes: int):
 
 def real_file_method(dex, vm, m):
     code = m.get_code()
+    if code is None:            # no DalvikCode registered at the method's code_off
+        return "P none", None
     e, r = e_part(lambda: dex.determineException(vm, m))
     return "P " + p_part(code, code.get_off(), "?") + " | E " + e, r
 
@@ -560,10 +562,25 @@ def run(ck: Check):
                 ck.fail(case, "reported try/catch ranges differ from the encoded ones", None, exp,
                         r if r is not None else line.split(" | E ")[-1])
             code = m.get_code()
+            if code is None:
+                continue
             got = [(t.get_start_addr(), t.get_insn_count()) for t in code.get_tries()]
             if got != [(t[0], t[1]) for t in tries]:
                 ck.fail(case, "DalvikCode.get_tries() differs from the encoded try items", None,
                         [(t[0], t[1]) for t in tries], got)
+            if not tries:
+                # bare item without exception table: nothing reported, nothing skipped after the instructions
+                for kind, bs in (("exact0", item), ("tail0", item + bytes(rng.randrange(256) for _ in range(4)))):
+                    ln, info = real_raw(dex, bs, len(types))
+                    r_reqs.append("tries %s %d" % (hexs(bs), len(types)))
+                    r_real.append(ln)
+                    dist["raw"][kind] = dist["raw"].get(kind, 0) + 1
+                    rcase = {"kind": "raw", "hex": hexs(bs), "ntypes": len(types), "tries": [], "item_len": len(item)}
+                    if info is None or info[2] != []:
+                        ck.fail(rcase, "a code item without try items reports exceptions", None, [], ln.split(" | E ")[-1])
+                    elif info[1] != len(item):
+                        ck.fail(rcase, "DalvikCode consumed a different number of bytes than the code item has "
+                                "(padding rule)", None, len(item), info[1])
             if tries:
                 nlists = len({json.dumps([t[2], t[3]]) for t in tries}) if shared else len(tries)
                 hl = code.get_handlers()
@@ -651,36 +668,47 @@ def replay(ck: Check, rp):
     if "request" in c:
         print("request:", c["request"][:400]); print("real :", c.get("real")); print("model:", c.get("model"))
         _, h, n = c["request"].split(" ")
-        print("real now:", real_raw(dex, bytes.fromhex(h) if h != "-" else b"", int(n))[0])
+        print("real now (bare code item):", real_raw(dex, bytes.fromhex(h) if h != "-" else b"", int(n))[0])
         return 0
     kind = c.get("kind")
     if kind == "file":
         data = bytes.fromhex(c["dex"])
-        vm = dex.DEX(data)
+        try:
+            vm = dex.DEX(data)
+        except Exception as e:  # noqa
+            print("the file does not load:", type(e).__name__, e)
+            return 1
         m = [m for m in vm.get_encoded_methods() if m.get_name() == c["method"]][0]
         line, r = real_file_method(dex, vm, m)
         tries = [(s, cc, [tuple(x) for x in typed], ca) for s, cc, typed, ca in c["tries"]]
-        types = [t for t in (x.get_string() if hasattr(x, "get_string") else None for x in [])]  # names come from the file
-        exp = expected_ranges(tries, [vm.get_cm_type(i) for i in range(4096) if vm.get_cm_type(i) != INVALID])
+        types = []
+        while vm.get_cm_type(len(types)) != INVALID:
+            types.append(vm.get_cm_type(len(types)))
+        exp = expected_ranges(tries, types)
         print("method", c["method"], "encoded tries:", tries)
         print("expected (any order of ranges):", exp)
         print("observed:", r if r is not None else line)
-        print("match:", ranges_match(exp, r))
-        return 0 if ranges_match(exp, r) else 1
-    if kind in ("raw", "shipped") or "hex" in c:
+        ok = ranges_match(exp, r)
+        print("match:", ok)
+        return 0 if ok else 1
+    if "hex" in c:
         data = bytes.fromhex(c["hex"]) if c["hex"] != "-" else b""
-        line, info = real_raw(dex, data, c.get("ntypes", 1 << 20))
+        nt = c.get("ntypes", 1 << 16)
+        line, info = real_raw(dex, data, nt)
         print("real:", line)
+        if c.get("expect_error"):
+            ok = line.endswith("err " + c["expect_error"])
+            print("expected error:", c["expect_error"], "match:", ok)
+            return 0 if ok else 1
         if "tries" in c:
             tries = [(s, cc, [tuple(x) for x in typed], ca) for s, cc, typed, ca in c["tries"]]
-            exp = expected_ranges(tries, ["t%d" % i for i in range(c.get("ntypes", 0))])
         else:
             try:
-                tries, end = walk_code_item(data, 0)
-                exp = [[a, b2] + [[("t%d" % t), ad] for t, ad in hs[:-1] if False] for a, b2, *hs in []]
-                exp = expected_ranges(tries, ["t%d" % i for i in range(1 << 16)])
+                tries, _ = walk_code_item(data, 0)
             except Exception as e:  # noqa
-                print("independent reader:", type(e).__name__); return 0
+                print("independent reader:", type(e).__name__)
+                return 0
+        exp = expected_ranges(tries, ["t%d" % i for i in range(nt)])
         print("expected (any order of ranges):", exp)
         ok = info is not None and ranges_match(exp, info[2])
         if info is not None and "item_len" in c:
